@@ -348,6 +348,8 @@ func runC10(c *harness.Case) {
 	c.AddSet("list_engines", []string{"memkv", "tikv/split", "memkv/parts"}[c.Index%3])
 	n := harness.NewNode(harness.NodeOpts{KV: bkv})
 	defer n.Retire()
+	nc := harness.NewNode(harness.NodeOpts{KV: bkv, Config: backend.Config{EnableEtcdCompatibility: true}})
+	defer nc.Retire()
 	var bkeys []string
 	for _, full := range cand {
 		resp, err := n.Create(full, []byte("v"))
@@ -431,6 +433,16 @@ func runC10(c *harness.Case) {
 			return
 		}
 		c.Stat("list_ranges_checked", 1)
+		// Count computes its own bounds for the same raw range (a second node over the same store with etcd
+		// compatibility on - Count answers 0 without it - reading at the first node's revision as a follower does)
+		nc.B.SetCurrentRevision(n.Committed())
+		if cr, cerr := nc.B.Count(harness.Ctx, &proto.CountRequest{Key: []byte(a), End: []byte(b)}); cerr == nil {
+			if int(cr.Count) != len(want) {
+				c.Violatef("C10 range-bounds-enclose-wrong-set via=Backend.Count", map[string]interface{}{"start": fmt.Sprintf("%q", a), "end": fmt.Sprintf("%q", b)}, "Count(%q,%q) = %d; the stored keys inside are %q", a, b, cr.Count, want)
+				return
+			}
+			c.Stat("count_ranges_checked", 1)
+		}
 	}
 	// the same reads at an older revision, after half of the keys got newer versions (a scan then meets versions it has
 	// to pass over; whatever it does to pass over them must stay inside that one raw key - also when the next raw key
